@@ -17,6 +17,7 @@ import Driver.Block
 import Driver.Doc
 import Driver.Corpus
 import Driver.Md
+import Driver.Contrib
 open Lean
 
 def dispatch (op : String) (j : Json) : Except String Json :=
@@ -44,6 +45,8 @@ def dispatch (op : String) (j : Json) : Except String Json :=
   | "corpus.dump" => Driver.Corpus.dumpOp j
   | "corpus.run" => Driver.Corpus.runOp j
   | "md.render" => Driver.Md.renderOp j
+  | "jira.render" => Driver.Contrib.jiraOp j
+  | "xwiki.render" => Driver.Contrib.xwikiOp j
   | "ping" => pure (Json.str "pong")
   | _ => throw s!"unknown op {op}"
 
